@@ -592,3 +592,87 @@ def r15e(R):
             'they were raw *before* the conversion from logical/rgb units: a '
             'staged `brightness 33.3` is sent as 33 percent, a negative hue is '
             'clamped instead of wrapped - not what a plain set transmits' % bad)
+
+
+# ---------------------------------------------------------------- R15.f
+def _roots_and_runners(A):
+    parser_funcs = list(A.repo.all_functions('bardolph.parser'))
+    # dispatcher: a call site that resolves to (most of) the statement handlers
+    best = None
+    for f in parser_funcs:
+        for s in A.rs.sites(f):
+            cs = set(s.callees)
+            if len(cs) >= 10 and (best is None or len(cs) > len(best[1])):
+                best = (f, cs)
+    if best is None:
+        raise AnalysisError('R15.f: statement dispatch site not found')
+    dispatcher, roots = best
+    runners = {dispatcher}
+    for s in A.rs.callers(dispatcher):
+        runners.add(s.func)
+    return roots, frozenset(runners), dispatcher
+
+
+def _unset_chain(A, f, node, call, roots, opaque, seen, depth=0):
+    """A chain of functions [root, ..., f] along which Register.OPERAND is not
+    set between the start of the statement and `call` in f, or None."""
+    from .c01 import operands_before, TRANSPARENT
+    vals = operands_before(A, f, node, call, (), opaque)
+    if not any(m == TRANSPARENT for m, _a, _c in vals):
+        return None
+    if f in roots:
+        return [f.short]
+    if depth > 8:
+        raise AnalysisError('R15.f: call chain above %s too deep' % f.short)
+    callers = A.rs.callers(f)
+    if not callers:
+        return None          # dead code: never part of a statement
+    for s in callers:
+        if not isinstance(s.node, ast.Call):
+            continue
+        key = (s.func, id(s.node))
+        if key in seen:
+            continue
+        seen.add(key)
+        for n in A.node_of_call(s.func, s.node):
+            ch = _unset_chain(A, s.func, n, s.node, roots, opaque, seen, depth + 1)
+            if ch:
+                return ch + [f.short]
+    return None
+
+
+@rule('R15.f', ('C15', 'C01'), 'the operand register is set inside the same '
+      'statement before every COLOR / POWER instruction', floor=6,
+      decides='a stage (or set / on / off) acts on what *it* names, whatever '
+              'statement ran before it: a stage after `set default` still '
+              'colours its rectangle')
+def r15f(R):
+    from .c01 import operand_flows  # noqa: F401  (same emission sites)
+    A = R.A
+    roots, opaque, dispatcher = _roots_and_runners(A)
+    action = A.func(PARSE, 'Parser._action')
+    action_ops = set()
+    for s in A.rs.callers(action):
+        if isinstance(s.node, ast.Call) and s.node.args:
+            v = A.try_fold(s.node.args[0], s.func)
+            if isinstance(v, EnumVal) and v.enum == 'OpCode':
+                action_ops.add(v.member)
+    if not action_ops:
+        raise AnalysisError('no constant op-code reaches Parser._action')
+    for f in A.repo.all_functions('bardolph.parser'):
+        for call, ops in A.emission_sites(f):
+            kinds = sorted(set(
+                op for op, _a in ops if op in action_ops or op == '<self._op_code>'))
+            if not kinds:
+                continue
+            for n in A.node_of_call(f, call):
+                chain = _unset_chain(A, f, n, call, roots, opaque, set())
+                R.check(f, call, chain is None,
+                        'a %s instruction is emitted on a path along which the '
+                        'statement has not set Register.OPERAND (%s): the VM '
+                        'dispatches on whatever the previous statement left '
+                        'there - e.g. a stage that follows `set default` '
+                        'overwrites the default instead of colouring its cells'
+                        % ('/'.join(k.strip('<>') for k in kinds),
+                           ' -> '.join(chain or [])),
+                        path=chain, line=call.lineno)
